@@ -14,7 +14,8 @@
   DISCIPLINE (`OCfg.step`): everything `Cfg.step` of Model/Crash.lean accepts
   (`cfg_traces_accepted`), plus
     F1'  a failing data sync: all stays pending, committed state unchanged, more page writes and
-         further syncs may follow; a commit header only with nothing pending (after a completed sync);
+         further syncs may follow; a commit header as in `Cfg.step`: the state's pages durable as of the
+         last completed sync and untouched by everything pending (normally nothing is pending);
     P1   idempotent restore: with no header in flight, a header write into the inactive slot with
          exactly the contents that slot durably holds (`pattern1_accepted`); joins the pending list;
     F2'  after a failed final sync: only `restore` of the saved old contents of the in-flight slot,
@@ -274,8 +275,14 @@ example : (oxInit.run fxReach [.op (.write 5 77), .op .sync, .op (.hdr 1 2 1), .
 /-- F1': the data sync fails, the transaction writes on and retries the sync -/
 example : (oxInit.run fxReach [.op (.write 5 77), .syncFail, .op (.write 6 1), .syncFail, .op .sync,
     .op (.hdr 1 2 1), .op .sync]).isSome = true := by decide
-/-- rejected: header right after a failed data sync (something is pending) -/
+/-- rejected: header right after a failed data sync (page 5 of state 1 is pending, not durable) -/
 example : (oxInit.run fxReach [.op (.write 5 77), .syncFail, .op (.hdr 1 2 1)]).isSome = false := by decide
+/-- the open-time max-size update (a header for the ACTIVE state, no sync before it) with a rollback's
+    truncate still pending, also across a failing sync -/
+example : ((OCfg.ofCfg mxInit).run mxReach [.op (.trunc 6), .op (.hdr 1 2 0), .op .sync]).isSome = true := by decide
+example : ((OCfg.ofCfg mxInit).run mxReach [.op (.trunc 6), .syncFail, .op (.hdr 1 2 0), .syncFail, .restore 1 0 0,
+    .op .sync, .op (.write 8 1)]).isSome = true := by decide
+example : ((OCfg.ofCfg mxInit).run mxReach [.op (.write 3 99), .op (.hdr 1 2 0)]).isSome = false := by decide
 /-- rejected: a page write before any sync has succeeded after the restore -/
 example : (oxInit.run fxReach cxTrace).isSome = false := by decide
 /-- rejected: restoring a copy of the active header -/
